@@ -6,6 +6,7 @@ package gnet
 // must be gone; descriptors 0, 1 and 2 of the process, which it never owned, must still be what they were.
 
 import (
+	"context"
 	"bufio"
 	"fmt"
 	"os"
@@ -104,11 +105,25 @@ func TestVerifStartFaults(t *testing.T) {
 				case err := <-done:
 					rec.emit("RunRet", "err", errClass(err), "msg", fmt.Sprint(err))
 				case <-time.After(3 * time.Second):
-					// the fault did not hit the start-up (the call index was beyond it): an ordinary engine, stop it
+					// the fault did not hit the start-up (the call index was beyond it): an ordinary engine, stop it.
+					// (Under a tracer that follows every thread of a busy machine the start-up itself can take longer
+					// than this: Run may still fail. Stop on a handle whose Run failed at start-up only ends with its
+					// context, so the context is a bounded one, and a Run that has returned by then is what is recorded.)
 					started = true
 					<-h.booted
-					_ = h.eng.Stop(contextBG())
-					rec.emit("RunRet", "err", errClass(<-done))
+					sctx, cancel := context.WithTimeout(contextBG(), 20*time.Second)
+					_ = h.eng.Stop(sctx)
+					cancel()
+					select {
+					case err := <-done:
+						if err != nil {
+							started = false
+						}
+						rec.emit("RunRet", "err", errClass(err), "msg", fmt.Sprint(err))
+					case <-time.After(20 * time.Second):
+						rec.emit("RunStuck")
+						rep.Violation("sys/run-stuck", "Run did not return within 20 s after Engine.Stop (engine started under a start-up fault that missed)", nil)
+					}
 				}
 				_ = cmd.Process.Signal(syscall.SIGINT)
 				_ = cmd.Wait()
